@@ -518,6 +518,7 @@ def main():
     L = ["-- GENERATED by tools/alloc_sites.py from $AMGCL_REPO/amgcl/**/*.hpp — do not edit; regenerated on every run",
          "import Amgcl.Model.AllocCover",
          "import Amgcl.Properties.C10",
+         "import Amgcl.Properties.C10b",
          "import Amgcl.Properties.C10c",
          "/-! Every heap allocation of the (non-GPU) library sources whose cells are left unwritten by the allocating",
          "expression, and the obligation that each one is accounted for in `Amgcl.AllocCover.coveredKeys` (by a definedness",
